@@ -8,6 +8,7 @@ import DTML.Batch
 import DTML.Quote
 import DTML.VarPipe
 import DTML.ExtImpl
+import DTML.Sort
 open Lean DTML
 
 namespace Driver
@@ -115,6 +116,42 @@ def opVar (j : Json) : Except String Json := do
       ("applied", Json.arr ((VarPipe.applied sp).map Json.str).toArray),
       ("simple", Json.num (VarPipe.simpleKind sp))]
 
+def parseKey (j : Json) : Except String Sort.Key := do
+  match j with
+  | .str s => return .str s.toList
+  | _ => return .int (← j.getInt?)
+
+def parseAttr (j : Json) : Except String Sort.AttrVal := do
+  let k ← getStr j "a"
+  match k with
+  | "none" => return .noneVal
+  | "missing" => return .missing
+  | "plain" => return .plain (← parseKey (← j.getObjVal? "k"))
+  | "callable" => return .callable (← parseKey (← j.getObjVal? "k"))
+  | "nonbasic" => return .nonbasic (← parseKey (← j.getObjVal? "k"))
+  | _ => throw s!"attr kind {k}"
+
+/-- op "sort": displayed order (ids) of a sorted / reversed sequence -/
+def opSort (j : Json) : Except String Json := do
+  let rowsJ ← j.getObjValAs? (Array Json) "rows"
+  let rows ← rowsJ.toList.mapM fun r => do
+    let cells ← r.getArr?
+    cells.toList.mapM parseAttr
+  let rev ← getBool j "reverse"
+  let fsJ ← j.getObjVal? "fields"
+  let fs : Option (List Sort.Field) ← match fsJ with
+    | .null => pure none
+    | .arr a => do
+      let l ← a.toList.mapM fun f => do
+        let k ← getStr f "kind"
+        let d ← getBool f "desc"
+        let kind : Sort.CmpKind := if k = "nocase" then .nocase else if k = "rcmp" then .rcmp else .cmp
+        pure ({ kind := kind, desc := d } : Sort.Field)
+      pure (some l)
+    | _ => throw "fields"
+  let out := Sort.display ExtImpl.asciiLower fs rev (Sort.decorate rows)
+  return Json.arr (out.map (fun e => Json.num e.1)).toArray
+
 def handle (j : Json) : Except String Json := do
   let op ← getStr j "op"
   match op with
@@ -124,6 +161,7 @@ def handle (j : Json) : Except String Json := do
   | "lazy" => opLazy j
   | "quote" => opQuote j
   | "var" => opVar j
+  | "sort" => opSort j
   | "ping" => return Json.str "pong"
   | _ => throw s!"unknown op {op}"
 
